@@ -20,6 +20,8 @@ ASSUMPTIONS = ["gzip / base64 / json layers are library code", "round trip over 
 TRUSTED = []
 
 MUTANTS = [
+    {"name": "config-cross-field-check", "file": "src/common/config.rs", "old": "                    .map_err(|_| ConfigError::InvalidValue)?;\n                self.max_blocking_time = v;", "new": "                    .map_err(|_| ConfigError::InvalidValue)?;\n                if v > self.max_migration_time.saturating_mul(1000) {\n                    return Err(ConfigError::InvalidValue);\n                }\n                self.max_blocking_time = v;", "expect": "C17.D6:field-refusal-by-own-value"},
+    {"name": "empty-cluster-name-rejected", "file": "src/common/cluster.rs", "after": "impl TryFrom<&str> for ClusterName {", "old": "    fn try_from(s: &str) -> Result<Self, Self::Error> {\n        for c in s.chars() {", "new": "    fn try_from(s: &str) -> Result<Self, Self::Error> {\n        if s.is_empty() {\n            return Err(InvalidClusterName);\n        }\n        for c in s.chars() {", "expect": "C17.D6:empty-name-decodes"},
     {"name": "single-slot-range-without-dash", "file": "src/common/cluster.rs", "old": "            strs.push(format!(\"{}-{}\", *start, *end));", "new": "            if start == end {\n                strs.push(format!(\"{}\", *start));\n            } else {\n                strs.push(format!(\"{}-{}\", *start, *end));\n            }", "expect": "C17.D2:range-encoding"},
     {"name": "flags-one-token-only", "file": "src/common/proto.rs", "old": "        if self.compress {\n            flags.push(\"COMPRESS\");\n        }", "new": "        if self.compress && !self.force {\n            flags.push(\"COMPRESS\");\n        }", "expect": "C17.D2:flag-token-independent"},
     {"name": "setcluster-header-epoch-after-flags", "file": "src/common/proto.rs", "after": "    pub fn to_args(&self) -> Vec<String> {\n        let mut args = vec![\n            self.version.clone(),", "old": "            self.epoch.to_string(),\n            self.flags.to_arg(),\n            self.cluster_name.to_string(),", "new": "            self.flags.to_arg(),\n            self.epoch.to_string(),\n            self.cluster_name.to_string(),", "expect": "C17.D1:ProxyClusterMeta:to_args:header-order"},
@@ -86,6 +88,9 @@ def run(ctx):
     _encoder_loops(ctx)
     _range_encoding(ctx)
     _flags_codec(ctx)
+    ctx.rule("C17.D6", "token decoders are total over what the encoders emit independently of token order: a config field is accepted or refused by its own value alone (the decoder applies `field value` pairs to a default config in hash-map order, so a test against another field sees a half-updated config), and the cluster-name decoder accepts the empty token, which the encoders write for `no cluster`")
+    _config_fields_independent(ctx)
+    _empty_name_decodes(ctx)
 
 
 def _migration_meta(ctx):
@@ -578,3 +583,63 @@ def _flags_codec(ctx):
             mine = [c for c in conds if own in c[0]]
             ctx.check(bool(mine) and not foreign, "C17.D2", "flag-token-independent:%s" % tok, site(w, bb), ok="%s is written iff the %s flag is set" % (tok, own),
                       bad="the token %s is written under a condition on another flag (%s): a combination of flags is encoded as a single token and decodes to different flags (e.g. FORCE+COMPRESS -> FORCE, the compressed blob is then read as a cluster name)" % (tok, sorted(set().union(*[c[0] for c in foreign])) if foreign else "none of its own"))
+
+
+
+def _config_fields_independent(ctx):
+    from ..lib import branch_conditions
+    from .C04 import _exits
+    F = ctx.F
+    R = "C17.D6"
+    bs = [b for b in F.all_bodies(bins=False) if b.crate == "undermoon" and not b.is_mock() and b.kind == "AssocFn" and b.path.startswith("common::config::")
+          and b.locals[0]["ty"].startswith("std::result::Result<") and len(b.sig.get("params", []) if b.sig else []) >= 0
+          and b.raw.get("argc") == 3 and b.locals[1]["ty"].startswith("&mut ") and b.locals[2]["ty"] == "&str" and b.locals[3]["ty"] == "&str"]
+    if not ctx.floor(R, "config field setters (&mut self, &str, &str) -> Result", len(bs), 2):
+        return
+    for b in bs:
+        ctx.analysed(b)
+        du = DefUse(b)
+        dom = cfg.dominators(b)
+        _, errs = _exits(b)
+        bad = []
+        for x in errs:
+            if b.blocks[x].term["k"] == "call" and b.blocks[x].term["dest"]["l"] == 0 and callee_decl(b.blocks[x].term) != "std::ops::FromResidual::from_residual":
+                continue   # delegation to the nested config's setter
+            for d, discr, val in branch_conditions(b, x, dom):
+                sl = du.slice_operand(discr, deep=True)
+                fs = [(a, n) for a, n in sl.fields if (a or "").startswith("common::config::")]
+                if sl.has_param(1) and fs:
+                    bad.append((x, b.blocks[d].term.get("line"), sorted(n for _, n in fs)))
+        ctx.check(not bad, R, "field-refusal-by-own-value:%s" % b.impl_adt.rsplit("::", 1)[-1], site(b, bad[0][0]) if bad else site(b), ok="no refusal depends on the current value of a config field",
+                  bad="a field is refused depending on the current value of %s (line %s): decoding a config applies the fields in arbitrary order to the defaults, so a valid config fails to decode for some orders" % (bad[0][2] if bad else "", bad[0][1] if bad else ""))
+
+
+def _empty_name_decodes(ctx):
+    from ..sccp import Interp, Oracle, Int, Bool, Agg
+    F = ctx.F
+    R = "C17.D6"
+    bs = [b for b in F.all_bodies(bins=False) if b.crate == "undermoon" and not b.is_mock() and b.path.startswith("<common::cluster::ClusterName as std::convert::TryFrom") and b.kind in ("AssocFn", "Fn")]
+    if not ctx.floor(R, "ClusterName::try_from", len(bs), 1):
+        return
+    for b in bs:
+        ctx.analysed(b)
+
+        def call(interp, bbx, term, argvals):
+            c = callee_of(term) or callee_decl(term) or ""
+            last = c.rsplit("::", 1)[-1]
+            aty = (term.get("atys") or [""])[0]
+            if last == "is_empty" and aty in ("&str", "&[u8]"):
+                return Bool(1)
+            if last == "len" and aty in ("&str", "&[u8]"):
+                return Int(0)
+            if last == "next" and ("Chars" in aty or "Bytes" in aty or "CharIndices" in aty or "slice::Iter" in aty):
+                return Agg("std::option::Option", 0, ())
+            return None
+        try:
+            res = Interp(F, b, Oracle(call=call)).run()
+        except Exception as e:
+            ctx.lost(R, "empty-name", "interpretation failed: %s" % e)
+            continue
+        bad = [bb for bb, i, st in b.assigns() if st["place"]["l"] == 0 and not st["place"]["p"] and st["rv"]["k"] == "agg" and st["rv"].get("variant") == "Err" and bb in res.exec_blocks]
+        ctx.check(not bad, R, "empty-name-decodes", site(b, bad[0]) if bad else site(b), ok="the empty token is not refused by the name decoder's own checks",
+                  bad="ClusterName::try_from refuses the empty string, which is what the encoders write for a proxy / node that belongs to no cluster: such metadata no longer decodes from its own encoding")
